@@ -62,6 +62,7 @@ type Sched struct {
 	Stick      float64
 	Inactive   map[string]bool
 	StallSites map[string]uint64 // a task parking at this site is stalled for n steps (slow goroutine fault)
+	StallRand  map[string]uint64 // ... for 0..n steps, drawn from the run PRNG at each arrival
 	SiteHits   map[string]uint64
 	dead       map[int]bool // crashed nodes
 	hash       uint64
@@ -89,6 +90,7 @@ func New(seed uint64) *Sched {
 		rng:        NewRand(seed),
 		Inactive:   map[string]bool{},
 		StallSites: map[string]uint64{},
+		StallRand:  map[string]uint64{},
 		SiteHits:   map[string]uint64{},
 		dead:       map[int]bool{},
 		regStep:    map[string]uint64{},
@@ -339,6 +341,9 @@ func (s *Sched) park(site string, keys []interface{}, poll bool, cond func() boo
 	s.SiteHits[site]++
 	if n := s.StallSites[site]; n > 0 {
 		t.stall = s.step + n
+	}
+	if n := s.StallRand[site]; n > 0 {
+		t.stall = s.step + uint64(s.rng.Intn(int(n)+1))
 	}
 	s.mu.Unlock()
 	<-t.resume
